@@ -283,7 +283,7 @@ fn periods(stress_only: bool) -> Vec<u64> {
     if stress_only {
         vec![40u64, 200, 1000]
     } else {
-        vec![0u64, 0, 0, 500]
+        vec![0u64]
     }
 }
 
